@@ -48,17 +48,35 @@ const (
 
 func migrateInvoiceRates(inv *bill.Invoice) {
 	for _, line := range inv.Lines {
+		if line == nil {
+			continue
+		}
 		for _, tax := range line.Taxes {
+			if tax == nil {
+				continue
+			}
 			migrateInvoiceTaxCombo(tax)
 		}
 	}
 	for _, line := range inv.Discounts {
+		if line == nil {
+			continue
+		}
 		for _, tax := range line.Taxes {
+			if tax == nil {
+				continue
+			}
 			migrateInvoiceTaxCombo(tax)
 		}
 	}
 	for _, line := range inv.Charges {
+		if line == nil {
+			continue
+		}
 		for _, tax := range line.Taxes {
+			if tax == nil {
+				continue
+			}
 			migrateInvoiceTaxCombo(tax)
 		}
 	}
@@ -277,21 +295,39 @@ func migrateTaxIDZoneToLines(inv *bill.Invoice) {
 	}
 
 	for _, line := range inv.Lines {
+		if line == nil {
+			continue
+		}
 		for _, tc := range line.Taxes {
+			if tc == nil {
+				continue
+			}
 			if tc.Category == tax.CategoryVAT {
 				tc.Ext = ext
 			}
 		}
 	}
 	for _, line := range inv.Discounts {
+		if line == nil {
+			continue
+		}
 		for _, tc := range line.Taxes {
+			if tc == nil {
+				continue
+			}
 			if tc.Category == tax.CategoryVAT {
 				tc.Ext = ext
 			}
 		}
 	}
 	for _, line := range inv.Charges {
+		if line == nil {
+			continue
+		}
 		for _, tc := range line.Taxes {
+			if tc == nil {
+				continue
+			}
 			if tc.Category == tax.CategoryVAT {
 				tc.Ext = ext
 			}
